@@ -1,0 +1,20 @@
+//go:build verif
+// +build verif
+
+package uuid
+
+import "time"
+
+// VerifClock, when set, replaces the wall clock read by currentTimeUnit: it returns
+// nanoseconds since the Unix epoch.  Only compiled with the build tag `verif`.
+var VerifClock func() int64
+
+func wallClockNano() int64 {
+	if VerifClock != nil {
+		return VerifClock()
+	}
+	return time.Now().UTC().UnixNano()
+}
+
+// VerifPrivateIP4 exposes the machine id NewSnowflake(0) picks by itself.
+func VerifPrivateIP4() uint16 { return privateIP4() }
